@@ -390,6 +390,9 @@ def verify_function(world, c, setup=None, body_of=None, hooks=None, extra_check=
         return res
     world.current = None
     res.paths = len(paths)
+    und = [p.end for p in paths if str(p.end).startswith('undecided: ')]
+    if und:
+        res.undecided = und[0][len('undecided: '):] + (f' (+{len(und) - 1} more undecided paths of {len(paths)})' if len(und) > 1 else f' (1 undecided path of {len(paths)})')
     for p in paths:
         res.paths_ended[p.end] = res.paths_ended.get(p.end, 0) + 1
         for o in p.obls:
